@@ -15,7 +15,9 @@ Inductive op :=
 (* err: frames/resets: 0 nil, 1 FINAL_SIZE_ERROR, 2 FLOW_CONTROL_ERROR, 3 too many gaps;
         read/peek: 0 nil, 1 EOF, 2 StreamError(code, remote), 3 shutdown, 4 would block;
    firedNow: frames put back during the op (sorted); completed: calls of onStreamCompleted so far *)
-Inductive obs := ROut (err n hash code : Z) (remote : bool) (firedNow : list Z) (completed : Z) | RBug.
+(* owed: id of the received frame whose buffer the current frame aliases, i.e. the release
+   (PutBack) the stream still owes; -1: no current frame, or a private copy *)
+Inductive obs := ROut (err n hash code : Z) (remote : bool) (firedNow : list Z) (completed : Z) (owed : Z) | RBug.
 
 Inductive case := RSCase (window : Z) (ops : list (op * obs)).
 
@@ -31,36 +33,39 @@ Definition ferr_code (e : ferr) : option Z :=
 Definition new_fired (s s' : rstream) : list Z :=
   sortZ (skipn (List.length (fired (sorter s))) (fired (sorter s'))).
 
+Definition owed_id (s : rstream) : Z :=
+  match cur s with [] => -1 | _ => match curDone s with Some c => c | None => -1 end end.
+
 Definition rd_obs (s s' : rstream) (d : list Z) (e : rerr) : obs :=
   let '(cls, code, remote) :=
     match e with
     | ENil => (0, 0, false) | EEOF => (1, 0, false) | ECancel c r => (2, c, r)
     | EShutdown => (3, 0, false) | EWouldBlock => (4, 0, false)
     end in
-  ROut cls (len d) (bhash d) code remote (new_fired s s') (ncompleted s').
+  ROut cls (len d) (bhash d) code remote (new_fired s s') (ncompleted s') (owed_id s').
 
 Definition step (s : rstream) (o : op) : rstream * obs :=
   match o with
   | RFrame off n fin cb =>
     let '(s', e) := handleStreamFrame s (slice sbyte off n) off fin (Some cb) in
-    (s', match ferr_code e with Some c => ROut c 0 0 0 false (new_fired s s') (ncompleted s') | None => RBug end)
+    (s', match ferr_code e with Some c => ROut c 0 0 0 false (new_fired s s') (ncompleted s') (owed_id s') | None => RBug end)
   | RReset final reliable code =>
     let '(s', e) := handleResetStreamFrame s final reliable code in
-    (s', match ferr_code e with Some c => ROut c 0 0 0 false (new_fired s s') (ncompleted s') | None => RBug end)
+    (s', match ferr_code e with Some c => ROut c 0 0 0 false (new_fired s s') (ncompleted s') (owed_id s') | None => RBug end)
   | RRead n =>
     let '(s', d, e, bug) := Read s n in
     (s', if bug then RBug else rd_obs s s' d e)
   | RPeek n =>
     let '(s', d, e, bug) := PeekS s n in
     (s', if bug then RBug else rd_obs s s' d e)
-  | RCancel code => let s' := CancelRead s code in (s', ROut 0 0 0 0 false (new_fired s s') (ncompleted s'))
-  | RShutdown => let s' := CloseForShutdown s in (s', ROut 0 0 0 0 false (new_fired s s') (ncompleted s'))
+  | RCancel code => let s' := CancelRead s code in (s', ROut 0 0 0 0 false (new_fired s s') (ncompleted s') (owed_id s'))
+  | RShutdown => let s' := CloseForShutdown s in (s', ROut 0 0 0 0 false (new_fired s s') (ncompleted s') (owed_id s'))
   end.
 
 Definition obs_eqb (a b : obs) : bool :=
   match a, b with
-  | ROut e n h c r f k, ROut e' n' h' c' r' f' k' =>
-    (e =? e') && (n =? n') && (h =? h') && (c =? c') && Bool.eqb r r' && zeqb_list f f' && (k =? k')
+  | ROut e n h c r f k o, ROut e' n' h' c' r' f' k' o' =>
+    (e =? e') && (n =? n') && (h =? h') && (c =? c') && Bool.eqb r r' && zeqb_list f f' && (k =? k') && (o =? o')
   | _, _ => false
   end.
 
@@ -72,7 +77,7 @@ Fixpoint run (s : rstream) (l : list (op * obs)) : bool :=
   | (o, want) :: r =>
     let '(s', got) := step s o in
     obs_eqb got want &&
-    (match got with ROut 3 _ _ _ _ _ _ => true | _ => inv_ok sbyte (sorter s') end) &&
+    (match got with ROut 3 _ _ _ _ _ _ _ => true | _ => inv_ok sbyte (sorter s') end) &&
     run s' r
   end.
 
